@@ -168,3 +168,37 @@ package car
 //@   check averages [C13]: err == nil && result0.BlockCount > 0 ==> result0.AvgCidLength == totalCidLength / result0.BlockCount && result0.AvgBlockLength == totalBlockLength / result0.BlockCount && result0.MinCidLength == minCidLength && result0.MinBlockLength == minBlockLength
 //@   check roots_present [C13]: err == nil ==> result0.RootsPresent == (len(result0.Roots) == rootsPresentCount)
 //@   check version_header [C13]: err == nil ==> result0.Version == r.Version && result0.Header == r.Header
+
+//@ func (*traversalCar).WriteV2Header
+//@   modifies wn(w)
+//@   alloc[0] bounded_by tc.opts.DataPadding
+//@   call[Header.WriteTo#0] assert header [C05,C15]: arg0.DataSize == tc.size && arg0.DataOffset == wrap_u64(51 + tc.opts.DataPadding) && (tc.opts.IndexCodec == 3145728 ==> arg0.IndexOffset == 0)
+//@   ensures count [C15]: err == nil && wn(w) - old(wn(w)) < 4611686018427387904 && tc.opts.DataPadding < 4611686018427387904 ==> result0 == wn(w) - old(wn(w)) && result0 == 51 + tc.opts.DataPadding
+//@   let _, e0 := call[Writer.Write#0]
+//@   let _, e1 := call[Header.WriteTo#0]
+//@   let _, e2 := call[Writer.Write#1]
+//@   ensures never_impossible [C15]: tc.opts.DataPadding < 4611686018427387904 && e0 != ErrOffsetImpossible && e1 != ErrOffsetImpossible && e2 != ErrOffsetImpossible ==> err != ErrOffsetImpossible
+
+//@ func (*traversalCar).WriteV1
+//@   let trk, _ := call[loader.TeeingLinkSystem#0]
+//@   let sz := call[ReadCounter.Size#0]
+//@   call[loader.TeeingLinkSystem#0] assert starts_after_header [C15]: ref(arg1) == ref(w) && arg3 == tc.opts.IndexCodec
+//@   call[carv1.WriteHeader#0] assert header [C01,C15]: arg0.Version == 1 && ref(arg1) == ref(w)
+//@   ensures size_is_bytes_accounted [C15]: err == nil ==> result0 == sz && tc.size == sz
+//@   let whe := call[carv1.WriteHeader#0]
+//@   let _, hse := call[carv1.HeaderSize#0]
+//@   ensures mismatch_is_loud [C15]: whe == nil && hse == nil && old(tc.size) != 0 && old(tc.size) != sz && terr == nil ==> err == ErrSizeMismatch
+//@   let terr := call[traverse#0]
+
+//@ func (*traversalCar).WriteTo
+//@   modifies wn(w), tc.size
+//@   alloc[0] bounded_by tc.opts.IndexPadding
+//@   let hn, herr := call[traversalCar.WriteV2Header#0]
+//@   let v1s, idx, v1err := call[traversalCar.WriteV1#0]
+//@   call[index.WriteTo#0] assert index_last [C15]: ref(arg0) == ref(idx) && ref(arg1) == ref(w)
+//@   check count_sums_parts [C15]: err == nil && tc.opts.IndexCodec == 3145728 ==> n == wrap_s64(hn + wrap_s64(v1s))
+
+//@ func TraverseToFile
+//@   let wn0, werr := call[traversalCar.WriteTo#0]
+//@   call[traversalCar.WriteV2Header#0] assert second_header_after_rewind [C15]: werr == nil
+//@   call[File.Seek#0] assert rewind [C15]: arg1 == 0 && arg2 == 0
